@@ -118,7 +118,7 @@ func c09(c *Ctx) {
 		}
 	}
 	if fn := c.Fn("R2", "(*Raft).verifyLeader"); fn != nil {
-		r := c.Run(&engine.Automaton{Fn: fn, Tracks: []engine.Track{engine.PredRel("single", "p1.quorumSize", "1", engine.EQ)}})
+		r := c.Run(&engine.Automaton{Fn: fn, Tracks: []engine.Track{predSingleVoterQuorum()}})
 		for _, s := range c.P.CallsIn(fn, engine.Is("(*deferError).respond")) {
 			c.RequireAt(r, "R2", "verifyLeader:direct-answer", s.Instr, "answered directly (nil) only when the voter quorum is 1", func(v engine.View) bool {
 				return v.T("single") && c.P.Arg(s.Instr, 0) == "nil"
@@ -341,7 +341,7 @@ func c09VerifyParked(c *Ctx, rule string, fn *ssa.Function, r *engine.Result) {
 // a parked future that nobody will answer never resolves).
 func c09R2Verify(c *Ctx, rule string) {
 	if fn := c.Fn(rule, "(*Raft).verifyLeader"); fn != nil {
-		r := c.Run(&engine.Automaton{Fn: fn, Tracks: []engine.Track{engine.PredRel("single", "p1.quorumSize", "1", engine.EQ)}})
+		r := c.Run(&engine.Automaton{Fn: fn, Tracks: []engine.Track{predSingleVoterQuorum()}})
 		for _, s := range c.P.CallsIn(fn, engine.Is("(*deferError).respond")) {
 			c.RequireAt(r, rule, "verifyLeader:direct-answer", s.Instr, "answered directly (nil) only when the voter quorum is 1", func(v engine.View) bool {
 				return v.T("single") && c.P.Arg(s.Instr, 0) == "nil"
@@ -349,4 +349,18 @@ func c09R2Verify(c *Ctx, rule string) {
 		}
 		c09VerifyParked(c, rule, fn, r)
 	}
+}
+
+// predSingleVoterQuorum: "the voter quorum is 1", tested on the future's
+// field or on the value it was just given (R1 pins that the field is written
+// from quorumSize() in verifyLeader).
+func predSingleVoterQuorum() engine.Track {
+	a := engine.PredRel("single", "p1.quorumSize", "1", engine.EQ)
+	b := engine.PredRel("single", "recv.quorumSize()", "1", engine.EQ)
+	return engine.Track{Name: "single", If: func(cd engine.Cond, ifi *ssa.If) (bool, int) {
+		if m, on := a.If(cd, ifi); m {
+			return m, on
+		}
+		return b.If(cd, ifi)
+	}}
 }
